@@ -31,7 +31,7 @@ func main() {
 	}
 	b := map[string]int{"tarfs": bTarfs, "memfs": bMemfs, "dirfs": bDirfs}[*backend]
 	if *probe {
-		for _, c := range append(corpus(b), kindCorpus(b)...) {
+		for _, c := range append(append(corpus(b), kindCorpus(b)...), linkCorpus(b)...) {
 			t := newIDs()
 			o, err := run(c, t)
 			j, _ := json.Marshal(struct {
